@@ -321,6 +321,31 @@ def episode_record_to_dict(erec):
 # asynchronous episodes
 
 
+def _guarded(fn, name, limit, info):
+    import functools
+    import json
+    import os
+    import sys
+
+    def fire():
+        out = getattr(sys.modules.get("__main__"), "real_stdout", sys.__stdout__)
+        out.write("@@RESULT@@" + json.dumps(dict(info, hang=f"AsyncGraph.{name}()", crashed=True, skipped="a lifecycle call did not return"), default=str) + "\n")
+        out.flush()
+        os._exit(3)
+
+    @functools.wraps(fn)
+    def call(*a, **kw):
+        t = threading.Timer(limit, fire)
+        t.daemon = True
+        t.start()
+        try:
+            return fn(*a, **kw)
+        finally:
+            t.cancel()
+
+    return call
+
+
 class AsyncRun:
     """Builds the AsyncGraph for a spec once (warm-up is expensive) and runs episodes on it."""
 
@@ -342,6 +367,10 @@ class AsyncRun:
         self.graph.set_record_settings(**rs)
         self.gs0 = self.graph.init(rng=jax.random.PRNGKey(spec["seed"]))
         self.graph.warmup(self.gs0, jit_step=jit_step)
+        # last-resort guard for worker tasks without a watchdog of their own: a lifecycle call that does not return within 170 s
+        # (token starvation of the generated graph, or a stall: C05's subject) ends the task with a `hang` result
+        for meth in ("run", "reset", "step", "stop"):
+            setattr(self.graph, meth, _guarded(getattr(self.graph, meth), meth, 170.0, dict(spec=spec)))
 
     def episode(self, nsteps, eps=0, api="run", override=None, gs0=None):
         """api: 'run' | 'step' (reset + step). override: function(step_index, step_state) -> (new_step_state, output) or None.
